@@ -108,11 +108,32 @@ def cleanup(b, root=None):
     objs = list(reversed(W.genlikes))
     if root is not None:
         objs.insert(0, root)
+    # the generators inside generator-based managers too (a manager that was entered but whose
+    # exit never ran, or ran only in part)
+    for m in reversed(list(getattr(W, "all_mgrs", ()))):
+        g = getattr(m, "gen", None)
+        if g is not None:
+            objs.append(g)
     for obj in objs:
         if not _finish(obj):
             clean = False
+    # a second round: finishing one object may have suspended another one again
+    for obj in objs:
+        if not _finished(obj):
+            if not _finish(obj) or not _finished(obj):
+                clean = False
     linecache.cache.pop(b.filename, None)
     return clean
+
+
+def _finished(obj):
+    for attr in ("gi_frame", "cr_frame", "ag_frame"):
+        if hasattr(obj, attr):
+            try:
+                return getattr(obj, attr) is None
+            except Exception:
+                return True
+    return True
 
 
 class Driver(object):
